@@ -275,9 +275,9 @@ class Incarnation:
             self.models[mid] = (model, fns, meta)
         return self.models[mid]
 
-    def _leaf(self, x, leaf):
+    def _leaf(self, x, leaf, arr_dtype="float64"):
         if isinstance(x, list):
-            a = np.array(x, dtype=np.float64)
+            a = np.array(x, dtype=np.dtype(arr_dtype))
             return self.jnp.array(a) if leaf in ("jax", "float") else a
         if leaf == "float":
             return float(x)
@@ -287,16 +287,16 @@ class Incarnation:
             return np.array(x, dtype=np.float64)
         return self.jnp.array(x, dtype=self.jnp.float64)
 
-    def _build_params(self, values, leaf):
+    def _build_params(self, values, leaf, arr_dtype="float64"):
         if isinstance(values, dict):
-            return {k: self._build_params(v, leaf) for k, v in values.items()}
-        return self._leaf(values, leaf)
+            return {k: self._build_params(v, leaf, arr_dtype) for k, v in values.items()}
+        return self._leaf(values, leaf, arr_dtype)
 
     def get_params_obj(self, op):
         key = op.get("pobj") or f"auto:{op['params']}:{op.get('leaf', 'float')}"
         if key not in self.params_objs:
             vals = self.plan["params"][op["params"]]["values"]
-            obj = self._build_params(vals, op.get("leaf", "float"))
+            obj = self._build_params(vals, op.get("leaf", "float"), self.plan["params"][op["params"]].get("shocks_dtype", "float64"))
             self.params_objs[key] = obj
             # the caller keeps its own references to the nested containers it built
             self.params_refs[key] = {k: v for k, v in obj.items() if isinstance(v, dict)}
@@ -467,6 +467,14 @@ class Incarnation:
         if src is None:
             return None
         sid = src[1]
+        if op.get("vobj"):
+            # one caller-owned list of numpy buffers, refilled in place by MUTATE operations
+            key = op["vobj"]
+            if key not in self.vf_np_objs:
+                if sid not in self.vf_objs:
+                    raise _Skip(f"value arrays of op {sid} are not available")
+                self.vf_np_objs[key] = [np.array(a) for a in self.vf_objs[sid]]
+            return self.vf_np_objs[key]
         if sid not in self.vf_objs:
             raise _Skip(f"value arrays of op {sid} are not available")
         if op.get("vform", "asis") == "np":
@@ -533,7 +541,10 @@ class Incarnation:
             if obj is None:
                 raise _Skip("params object not created yet")
             new_vals = self.plan["params"][op["to"]]["values"]
-            self._overwrite_params(obj, new_vals, op.get("leaf", "float"), self.params_refs.get(key, {}))
+            self._overwrite_params(
+                obj, new_vals, op.get("leaf", "float"), self.params_refs.get(key, {}),
+                self.plan["params"][op["to"]].get("shocks_dtype", "float64"),
+            )
         elif what == "batch":
             obj = self.batch_objs.get(key)
             if obj is None:
@@ -560,18 +571,19 @@ class Incarnation:
                     lst[i] = a.copy()
         rec["mutated"] = [what, key]
 
-    def _overwrite_params(self, obj, vals, leaf, refs=None):
+    def _overwrite_params(self, obj, vals, leaf, refs=None, arr_dtype="float64"):
         for k, v in vals.items():
             if isinstance(v, dict):
                 # write through the nested dict the caller created (normally obj[k] itself)
                 inner = (refs or {}).get(k, obj[k])
-                self._overwrite_params(inner, v, leaf)
+                self._overwrite_params(inner, v, leaf, None, arr_dtype)
             else:
                 cur = obj.get(k)
-                if isinstance(cur, np.ndarray) and cur.flags.writeable and cur.shape == np.shape(v):
+                want = np.dtype(arr_dtype) if isinstance(v, list) else None
+                if isinstance(cur, np.ndarray) and cur.flags.writeable and cur.shape == np.shape(v) and (want is None or cur.dtype == want):
                     cur[...] = v
                 else:
-                    obj[k] = self._leaf(v, leaf)
+                    obj[k] = self._leaf(v, leaf, arr_dtype)
 
     # -- cache loss, gc
     def _op_CLEAR_CACHES(self, op, rec):  # noqa: ARG002
